@@ -446,7 +446,7 @@ Theorem user_exists_sound db fs vb domain local :
   (rc o = 0 -> ~ mailbox fs vb local) /\
   (rc o < 0 -> io_error fs vb local).
 Proof.
-  intros DF. cbv zeta. unfold user_exists. destruct (refused local) eqn:R.
+  intros DF. cbv zeta. unfold user_exists, user_exists_with. destruct (refused local) eqn:R.
   - simpl. apply refused_true in R. split; [lia|]. split; [|lia]. intros _ [C _]. contradiction.
   - apply refused_false in R. rewrite vget_dir_eq. destruct (domain_found_state _ _ DF) as [G S]. rewrite G, S.
     cbn [dom_errno]. pose proof (in_domain_sound fs vb local) as [A [B C]]. split; [|split].
@@ -471,15 +471,15 @@ Proof.
   - intros NM. destruct (Z.eq_dec z 0) as [E|E]; [exact E|]. exfalso. apply NM. apply A. lia.
 Qed.
 
-Theorem user_exists_confined db fs vb domain local :
-  let o := user_exists db fs vb domain local in
+Theorem user_exists_with_confined vg fs vb local :
+  let o := user_exists_with vg fs vb local in
   confined (probes o) /\
   (forall n, userdir o = Some n -> n = local /\ component local /\ fs local = EDir).
 Proof.
-  cbv zeta. unfold user_exists, confined. destruct (refused local) eqn:R.
+  cbv zeta. unfold user_exists_with, confined. destruct (refused local) eqn:R.
   { simpl. split; [constructor|discriminate]. }
   apply refused_false in R.
-  destruct (vget_dir db domain) as [e|[d|]]; try (simpl; split; [constructor|discriminate]).
+  destruct vg as [e|[d|]]; try (simpl; split; [constructor|discriminate]).
   destruct (dom_errno d) as [e|].
   { destruct (mem e VP_DOM_ERR); [simpl; split; [constructor|discriminate]|].
     destruct (mem e VP_DOM_ABSENT); [simpl; split; [constructor|discriminate]|].
@@ -487,6 +487,12 @@ Proof.
   split; [now apply in_domain_confined|].
   intros n H. apply in_domain_userdir in H. tauto.
 Qed.
+
+Theorem user_exists_confined db fs vb domain local :
+  let o := user_exists db fs vb domain local in
+  confined (probes o) /\
+  (forall n, userdir o = Some n -> n = local /\ component local /\ fs local = EDir).
+Proof. apply user_exists_with_confined. Qed.
 
 Lemma firstn_In' {A} (x : A) n l : In x (firstn n l) -> In x l.
 Proof.
@@ -666,7 +672,7 @@ Proof.
   assert (CO : (conf_of (user_exists db fs vb domain local) <=? 1)%N = true).
   { unfold conf_of. destruct (userdir _); reflexivity. }
   rewrite CO. rewrite andb_true_l.
-  unfold user_exists in *. destruct (refused local) eqn:R.
+  unfold user_exists, user_exists_with in *. destruct (refused local) eqn:R.
   { apply refused_true in R. destruct (component_b local) eqn:C; [apply component_b_spec in C; contradiction|]. simpl negb.
     match goal with |- (if true then ?B else _) = true => change (B = true) end. reflexivity. }
   apply refused_false in R. pose proof R as C. apply component_b_spec in C. rewrite C. simpl negb.
@@ -707,7 +713,7 @@ Theorem rcpt_reply_sound db fs vb domain local :
   | RError e => 0 < e /\ io_error fs vb l
   end.
 Proof.
-  cbv zeta. intros DF. unfold addrparse_rcpt. cbn [fst].
+  cbv zeta. intros DF. unfold addrparse_rcpt, reply_of. cbn [fst].
   pose proof (user_exists_sound db fs vb _ (map to_lower local) DF) as [A [B C]]. cbv zeta in A, B, C.
   set (z := rc (user_exists db fs vb (map to_lower domain) (map to_lower local))) in *.
   destruct (z <? 0) eqn:L.
@@ -744,7 +750,7 @@ Theorem model_passes_rcpt_checker db lay vbfile domain local :
   spec_ok_C13_rcpt db lay vbfile domain local (fst (rcpt_obs (fst ro))) (snd (rcpt_obs (fst ro)))
     (conf_of (snd ro)) (probes (snd ro)) = true.
 Proof.
-  cbv zeta. unfold addrparse_rcpt. cbn [fst snd].
+  cbv zeta. unfold addrparse_rcpt, reply_of. cbn [fst snd].
   set (fs := fs_of_layout lay). set (vb := vpopbounce_of vbfile).
   set (l := map to_lower local). set (d := map to_lower domain).
   pose proof (user_exists_confined db fs vb d l) as [CF UD]. cbv zeta in CF, UD.
@@ -752,7 +758,7 @@ Proof.
   assert (CO : (conf_of (user_exists db fs vb d l) <=? 1)%N = true).
   { unfold conf_of. destruct (userdir _); reflexivity. }
   rewrite CO. rewrite andb_true_l. clear CF UD CO.
-  unfold user_exists. destruct (refused l) eqn:R.
+  unfold user_exists, user_exists_with. destruct (refused l) eqn:R.
   { apply refused_true in R. destruct (component_b l) eqn:C; [apply component_b_spec in C; contradiction|].
     simpl negb. match goal with |- (if true then ?B else _) = true => change (B = true) end.
     cbn [rc probes]. change (0 <? 0) with false. change (0 =? 0) with true. cbn [rcpt_obs fst snd nil_b].
@@ -780,4 +786,58 @@ Proof.
   - reflexivity.
   - reflexivity.
   - reflexivity.
+Qed.
+
+(** * Address literals *)
+Theorem literal_reply_sound localip liphost db fs vb local iptext :
+  let l := map to_lower local in
+  domain_found db liphost ->
+  match fst (addrparse_literal localip liphost db fs vb local iptext) with
+  | RAccept => literal_is_local localip (map to_lower iptext) = true /\ mailbox fs vb l
+  | RNoUser text => (literal_is_local localip (map to_lower iptext) = false \/ ~ mailbox fs vb l) /\ exists t, text = REPLY_550 ++ t
+  | RError e => 0 < e /\ io_error fs vb l
+  end.
+Proof.
+  cbv zeta. intros DF. unfold addrparse_literal.
+  destruct (literal_is_local localip (map to_lower iptext)) eqn:M; cbn [fst].
+  - unfold reply_of.
+    pose proof (user_exists_sound db fs vb _ (map to_lower local) DF) as [A [B C]]. cbv zeta in A, B, C.
+    set (z := rc (user_exists db fs vb liphost (map to_lower local))) in *.
+    destruct (z <? 0) eqn:L.
+    + apply Z.ltb_lt in L. split; [lia|now apply C].
+    + apply Z.ltb_ge in L. destruct (z =? 0) eqn:E.
+      * apply Z.eqb_eq in E. split; [right; now apply B|]. destruct nouser_pre_550 as [t ->].
+        eexists. rewrite <- app_assoc. reflexivity.
+      * apply Z.eqb_neq in E. split; [reflexivity|]. apply A. lia.
+  - split; [now left|]. destruct nouser_pre_550 as [t ->]. eexists. rewrite <- app_assoc. reflexivity.
+Qed.
+
+(** the comparison is equality of the bracketed text (without tag) with the local address *)
+Lemma prefix_rbr : forall rest localip, ~ In RBR rest -> ~ In RBR localip ->
+  firstn (length localip) (rest ++ [RBR]) = localip -> nth (length localip) (rest ++ [RBR]) 0%N = RBR -> rest = localip.
+Proof.
+  induction rest as [|r rest IH]; intros [|a l] NR NL A B; cbn [length firstn app nth] in *.
+  - reflexivity.
+  - injection A as A1 A2. exfalso. apply NL. left. now symmetry.
+  - exfalso. apply NR. now left.
+  - injection A as A1 A2. subst a. f_equal. apply IH; try assumption.
+    + intros H. apply NR. now right.
+    + intros H. apply NL. now right.
+Qed.
+
+Lemma literal_is_local_spec localip ip : ~ In RBR localip -> ~ In RBR ip ->
+  literal_is_local localip ip = true <->
+  (if bytes_eqb (firstn (length VP_IPV6TAG) ip) (map to_lower VP_IPV6TAG) then skipn (length VP_IPV6TAG) ip else ip) = localip.
+Proof.
+  intros NL NI. unfold literal_is_local, literal_text.
+  set (rest := if bytes_eqb (firstn (length VP_IPV6TAG) ip) (map to_lower VP_IPV6TAG) then skipn (length VP_IPV6TAG) ip else ip).
+  assert (NR : ~ In RBR rest).
+  { unfold rest. destruct (bytes_eqb _ _); [|exact NI]. intros H. apply NI. clear -H.
+    revert H. generalize (length VP_IPV6TAG). intros n. revert ip. induction n as [|n IH]; intros ip H; [exact H|].
+    destruct ip as [|b ip]; [exact H|]. right. now apply IH. }
+  clearbody rest. rewrite andb_true_iff, bytes_eqb_eq, N.eqb_eq. split.
+  - intros [A B]. now apply prefix_rbr.
+  - intros <-. split.
+    + rewrite firstn_app, Nat.sub_diag, firstn_all. simpl. now rewrite app_nil_r.
+    + rewrite app_nth2, Nat.sub_diag by lia. reflexivity.
 Qed.
